@@ -23,6 +23,10 @@ pub struct Unit {
     pub methods: Vec<(String, String)>, // method rename: `name` => `new_name` (all receivers)
     pub ufcs: Vec<String>,            // `path(a0, a1..)` => `a0.last_segment(a1..)` (rule U1)
     pub exprs: Vec<(String, String)>, // expression path => replacement expression (statics such as REGISTRY)
+    pub generics: Vec<(String, String)>, // generic parameter bound (space-free) => concrete stand-in type (rule L3)
+    pub chains: Vec<(String, String, String)>, // method `b` called on the result of method `a` is renamed
+    pub defines: Vec<(String, String)>,  // `${NAME}` placeholders in spec files
+    pub broadcasts: Vec<String>,      // broadcast groups made available at the entry of every extracted body (ghost only)
     pub adapters_off: bool,
     pub extracts: Vec<Extract>,
 }
@@ -43,7 +47,11 @@ impl Unit {
                 "eager" => { u.eager.extend(words()); u.traced.extend(words()); }
                 "traced" => u.traced.extend(words()),
                 "ufcs" => u.ufcs.extend(words()),
+                "broadcast" => u.broadcasts.extend(words()),
+                "define" => { let w: Vec<String> = words().collect(); if w.len() == 2 { u.defines.push((w[0].clone(), w[1].clone())); } }
                 "expr" => { let (a, b) = rest.split_once("=>").ok_or_else(|| format!("{}:{}: expected `a => b`", p.display(), n + 1))?; u.exprs.push((nospace(a), b.trim().to_string())); }
+                "chain" => { let (a, b) = rest.split_once("=>").ok_or_else(|| format!("{}:{}: expected `a b => c`", p.display(), n + 1))?; let ws: Vec<&str> = a.split_whitespace().collect(); if ws.len() != 2 { return Err(format!("{}:{}: chain a b => c", p.display(), n + 1)); } u.chains.push((ws[0].to_string(), ws[1].to_string(), b.trim().to_string())); }
+                "generic" => { let (a, b) = rest.split_once("=>").ok_or_else(|| format!("{}:{}: expected `a => b`", p.display(), n + 1))?; u.generics.push((nospace(a), b.trim().to_string())); }
                 "path" | "type" | "bound" | "method" => {
                     let (a, b) = rest.split_once("=>").ok_or_else(|| format!("{}:{}: expected `a => b`", p.display(), n + 1))?;
                     let pair = (if kw == "type" { a.trim().to_string() } else { nospace(a) }, b.trim().to_string());
